@@ -176,6 +176,49 @@ impl Act {
         vec![Act::Linear, Act::ReLU, Act::LeakyReLU, Act::Sigmoid, Act::Tanh]
     }
 }
+/// Copyable mirror of `neurons::objective::Objective`.
+#[derive(Clone, Copy, Debug, PartialEq, Eq)]
+pub enum Obj {
+    AE,
+    MAE,
+    MSE,
+    RMSE,
+    CrossEntropy,
+    BinaryCrossEntropy,
+    KLDivergence,
+}
+impl Obj {
+    pub fn lib(self) -> Objective {
+        match self {
+            Obj::AE => Objective::AE,
+            Obj::MAE => Objective::MAE,
+            Obj::MSE => Objective::MSE,
+            Obj::RMSE => Objective::RMSE,
+            Obj::CrossEntropy => Objective::CrossEntropy,
+            Obj::BinaryCrossEntropy => Objective::BinaryCrossEntropy,
+            Obj::KLDivergence => Objective::KLDivergence,
+        }
+    }
+    pub fn name(self) -> &'static str {
+        match self {
+            Obj::AE => "ae",
+            Obj::MAE => "mae",
+            Obj::MSE => "mse",
+            Obj::RMSE => "rmse",
+            Obj::CrossEntropy => "ce",
+            Obj::BinaryCrossEntropy => "bce",
+            Obj::KLDivergence => "kl",
+        }
+    }
+    /// objectives whose domain is probabilities in [0, 1]
+    pub fn probabilistic(self) -> bool {
+        matches!(self, Obj::CrossEntropy | Obj::BinaryCrossEntropy | Obj::KLDivergence)
+    }
+    pub fn all() -> Vec<Obj> {
+        vec![Obj::AE, Obj::MAE, Obj::MSE, Obj::RMSE, Obj::CrossEntropy, Obj::BinaryCrossEntropy, Obj::KLDivergence]
+    }
+}
+
 /// Copyable mirror of `neurons::feedback::Accumulation`.
 #[derive(Clone, Copy, Debug, PartialEq, Eq)]
 pub enum Acc {
@@ -341,11 +384,17 @@ impl Cfg {
     pub fn sd_class(&self) -> String {
         let s = self.s.0 > 1 || self.s.1 > 1;
         let d = self.d.0 > 1 || self.d.1 > 1;
-        match (s, d) {
-            (false, false) => "stride=1,dilation=1".into(),
-            (true, false) => "stride>1,dilation=1".into(),
-            (false, true) => "stride=1,dilation>1".into(),
-            (true, true) => "stride>1,dilation>1".into(),
+        let base = match (s, d) {
+            (false, false) => "stride=1,dilation=1",
+            (true, false) => "stride>1,dilation=1",
+            (false, true) => "stride=1,dilation>1",
+            (true, true) => "stride>1,dilation>1",
+        };
+        // padding beyond the "full convolution" padding kernel-1 is a class of its own
+        if self.p.0 > self.d.0 * (self.k.0 - 1) || self.p.1 > self.d.1 * (self.k.1 - 1) {
+            format!("{},pad>k-1", base)
+        } else {
+            base.to_string()
         }
     }
 }
